@@ -163,3 +163,120 @@ func vp_C12_flow() {
 	vpReach("success", results[0].Error == nil)
 	vpReach("failure", results[0].Error != nil)
 }
+
+// vpBatchSource: scripted database / fetcher for two servers "x" and "y" (key ID ed25519:1 each).
+type vpBatchSource struct {
+	name   string
+	keys   map[spec.ServerName]ed25519.PublicKey // what it answers when asked for that server
+	extra  map[spec.ServerName]ed25519.PublicKey // keys it adds to every non-empty answer without being asked
+	now    spec.Timestamp
+	asked  map[spec.ServerName]int
+	stored map[PublicKeyLookupRequest]PublicKeyLookupResult
+}
+
+func (s *vpBatchSource) FetcherName() string { return s.name }
+
+func (s *vpBatchSource) FetchKeys(ctx context.Context, reqs map[PublicKeyLookupRequest]spec.Timestamp) (map[PublicKeyLookupRequest]PublicKeyLookupResult, error) {
+	out := map[PublicKeyLookupRequest]PublicKeyLookupResult{}
+	for r := range reqs {
+		s.asked[r.ServerName]++
+		if k, ok := s.keys[r.ServerName]; ok && r.KeyID == "ed25519:1" {
+			out[r] = PublicKeyLookupResult{VerifyKey: VerifyKey{Key: spec.Base64Bytes(k)}, ValidUntilTS: s.now + vpHourMs}
+		}
+	}
+	if len(reqs) > 0 {
+		for srv, k := range s.extra {
+			r := PublicKeyLookupRequest{srv, "ed25519:1"}
+			if _, asked := reqs[r]; !asked {
+				out[r] = PublicKeyLookupResult{VerifyKey: VerifyKey{Key: spec.Base64Bytes(k)}, ValidUntilTS: s.now + vpHourMs}
+			}
+		}
+	}
+	return out, nil
+}
+
+func (s *vpBatchSource) StoreKeys(ctx context.Context, results map[PublicKeyLookupRequest]PublicKeyLookupResult) error {
+	if s.stored == nil {
+		s.stored = map[PublicKeyLookupRequest]PublicKeyLookupResult{}
+	}
+	for k, v := range results {
+		s.stored[k] = v
+	}
+	return nil
+}
+
+// vp:check C12 both K=24 timeout=600 clock=fixed
+// vp_C12_batch: a batch of two requests from different servers. For each server the database either holds the
+// signer's current key, a wrong key, or nothing; the one fetcher holds the signer's key, a wrong key or nothing, and may
+// add to its answers an unrequested key (the signer's or a wrong one) for the other server. One result per request, in
+// request order; a request succeeds when the database holds the signer's valid key for it - whatever a fetcher says
+// about keys it was not asked for - or, the database lacking the key, when the fetcher supplies the signer's key.
+func vp_C12_batch() {
+	now := spec.AsTimestamp(time.Now())
+	wrongB, _ := vpKey("someone-else")
+	wrong := ed25519.PublicKey(wrongB)
+	servers := []spec.ServerName{"x", "y"}
+	good := map[spec.ServerName]ed25519.PublicKey{}
+	var reqs []VerifyJSONRequest
+	for _, srv := range servers {
+		pub, priv := vpKey("signer-" + string(srv))
+		good[srv] = ed25519.PublicKey(pub)
+		msg, err := SignJSON(string(srv), "ed25519:1", ed25519.PrivateKey(priv), vpJObj("a", string(srv)))
+		vpAssume(err == nil)
+		reqs = append(reqs, VerifyJSONRequest{ServerName: srv, AtTS: now, Message: msg, ValidityCheckingFunc: StrictValiditySignatureCheck})
+	}
+	if vpNondetBool("requests_swapped") {
+		reqs[0], reqs[1] = reqs[1], reqs[0]
+	}
+	db := &vpBatchSource{name: "db", keys: map[spec.ServerName]ed25519.PublicKey{}, now: now, asked: map[spec.ServerName]int{}}
+	f := &vpBatchSource{name: "f", keys: map[spec.ServerName]ed25519.PublicKey{}, extra: map[spec.ServerName]ed25519.PublicKey{}, now: now, asked: map[spec.ServerName]int{}}
+	dbHas, fHas := map[spec.ServerName]string{}, map[spec.ServerName]string{}
+	for _, srv := range servers {
+		dbHas[srv] = vpChoice("db."+string(srv), "good", "wrong", "none")
+		switch dbHas[srv] {
+		case "good":
+			db.keys[srv] = good[srv]
+		case "wrong":
+			db.keys[srv] = wrong
+		}
+		fHas[srv] = vpChoice("fetcher."+string(srv), "good", "wrong", "none")
+		switch fHas[srv] {
+		case "good":
+			f.keys[srv] = good[srv]
+		case "wrong":
+			f.keys[srv] = wrong
+		}
+	}
+	extraFor := spec.ServerName(vpChoice("fetcher_adds_unrequested_key_for", "nobody", "x", "y"))
+	if extraFor != "nobody" {
+		if vpNondetBool("unrequested_key_is_wrong") {
+			f.extra[extraFor] = wrong
+		} else {
+			f.extra[extraFor] = good[extraFor]
+		}
+	}
+	ring := KeyRing{KeyFetchers: []KeyFetcher{f}, KeyDatabase: db}
+	results, err := ring.VerifyJSONs(context.Background(), reqs)
+	vpAssert("one-result-per-request", err == nil && len(results) == 2)
+	if err != nil || len(results) != 2 {
+		return
+	}
+	for i, r := range reqs {
+		srv := r.ServerName
+		switch {
+		case dbHas[srv] == "good":
+			vpAssert("database-key-suffices", results[i].Error == nil)
+			vpAssert("fetcher-not-asked-for-a-key-the-database-holds", f.asked[srv] == 0)
+		case dbHas[srv] == "none" && fHas[srv] == "good":
+			vpAssert("fetched-key-suffices", results[i].Error == nil)
+		case dbHas[srv] == "none" && fHas[srv] == "wrong":
+			vpAssert("wrong-fetched-key-fails", results[i].Error != nil)
+		case dbHas[srv] == "wrong":
+			// the database's (current) key does not verify the message; the fetcher is not asked for it (whether a key
+			// it volunteers is then used is left open: success "only if some obtained key verifies" allows both)
+			vpAssert("fetcher-not-asked-for-a-key-the-database-holds", f.asked[srv] == 0)
+		}
+	}
+	vpReach("mixed", results[0].Error == nil && results[1].Error != nil)
+	vpReach("both-succeed", results[0].Error == nil && results[1].Error == nil)
+}
